@@ -49,22 +49,31 @@ class AwesomeyamlLoader(yaml.Loader):
         return ret
 
     @staticmethod
-    def _make_generator(value, update_fn):
+    def _make_generator(value, update_fn, unfilled=None):
         yield
         update_fn(value)
+        if unfilled is not None:
+            unfilled.discard(id(value))
 
     def construct_object(self, node, deep=False, convert=True):
+        alias = node in self.constructed_objects
         value = super().construct_object(node, deep=deep)
         if not convert:
             return value
 
         aynode = self._convert(value, node)
 
-        if not deep and not self.deep_construct and value is not aynode:
+        # the node has to be filled later exactly when the container it was created from still is; for a container met again through an
+        # alias that does not follow from the current mode (inside a tagged node, which is constructed deeply, it may be handed over empty,
+        # outside it may be complete already)
+        unfilled = self.__dict__.setdefault('_unfilled', set())
+        if (id(value) in unfilled if alias else not deep and not self.deep_construct) and value is not aynode:
             if isinstance(node, yaml.SequenceNode):
-                self.state_generators.append(self._make_generator(value, aynode.extend))
+                unfilled.add(id(value))
+                self.state_generators.append(self._make_generator(value, aynode.extend, unfilled))
             elif isinstance(node, yaml.MappingNode):
-                self.state_generators.append(self._make_generator(value, aynode.update))
+                unfilled.add(id(value))
+                self.state_generators.append(self._make_generator(value, aynode.update, unfilled))
 
         return aynode
 
